@@ -28,7 +28,8 @@ from lib.core import Ctx, enc, rat
 from lib import stage
 
 ID = "C05"
-LEAN_TARGETS = ["AiuVerif.Props.C05"]
+NEEDS_GEN = True
+LEAN_TARGETS = ["AiuVerif.Props.C05", "AiuVerif.Props.Order"]
 THEOREMS = [
     "AiuVerif.C05.localFix_true",
     "AiuVerif.C05.epoch_final",
@@ -38,6 +39,7 @@ THEOREMS = [
     "AiuVerif.C05.zerodiv_branch",
     "AiuVerif.C05.old_formula_wrong",
     "AiuVerif.C05.new_formula_right_on_witness",
+    "AiuVerif.Order.normalize_order",   # registration order / guards / shared context, re-decided on the generated sites
 ]
 RULE = ("streams of X slices for 1-3 ranks: (i) exhaustive grid = wrap position (exactly at TSk, strictly inside each "
         "gap TSk..TSk+1, before TS1, after TS5, absent) x phase type of the middle slice (DmaI/Prep/Exec/DmaO/other) x "
